@@ -288,6 +288,23 @@ def g1_discharged(st, kind, what, fn_summ):
         ec = enumerate_counter_index(base, idx)
         if ec:
             return ec
+        # a constant index below a position that was found in the same slice: `position(..) == Some(m)` means len > m
+        found_at = None
+        for t, pol in closure(pc):
+            if pol and t[0] == "bin" and t[1] == "==":
+                for a_, b_ in ((t[2], t[3]), (t[3], t[2])):
+                    if a_[0] == "lit" and isinstance(a_[1], terms.Int) and b_[0] == "proj" and b_[3] == 0 and str(b_[2]).endswith("Some") and slice_of(b_[1]) == base:
+                        found_at = max(found_at or 0, int(a_[1]))
+        if found_at is not None:
+            n_ = None
+            if idx[0] == "lit" and isinstance(idx[1], terms.Int):
+                n_ = int(idx[1])
+            elif idx[0] == "struct" and str(idx[1]).endswith(("RangeFrom", "RangeTo")):
+                b_ = dict(idx[2]).get("start" if str(idx[1]).endswith("RangeFrom") else "end")
+                if b_ is not None and b_[0] == "lit" and isinstance(b_[1], terms.Int):
+                    n_ = int(b_[1]) - 1
+            if n_ is not None and n_ <= found_at:
+                return f"position(..) == Some({found_at}) in the same slice dominates the constant index"
         pos = position_index(idx)
         if pos is not None and known_some(pc, pos[0]):
             # tokens[i], tokens[..i], tokens[i+1..]: i is a valid position of the same slice
@@ -497,7 +514,7 @@ def parser_unreachable(pc):
 
 
 def positive(pc, i):
-    for t, pol in q.conds(pc):
+    for t, pol in closure(pc):
         if t[0] != "bin":
             continue
         if pol and ((t[1] == ">" and t[2] == i and t[3] == ("lit", 0)) or (t[1] == "<" and t[3] == i and t[2] == ("lit", 0))
@@ -1019,7 +1036,18 @@ def check_validator_placement(prog, rep, eng, roots):
                     good, why = False, "an evaluated tree does not come from parse_and_validate[_extended]"
                 if ev.args[1] != pv[0].args[1]:
                     good, why = False, "the graph evaluated on is not the graph the trees were validated against"
-            tried = any(r[5] == "try" and r[0] == pv[0].term for r in sm.returns) or any(x.kind == "try" and x.args[0] == pv[0].term for x in sm.all_sites())
+            import norm as _norm
+            nz_ = _norm.Normalizer()
+            vt = nz_(pv[0].term)
+
+            def carries(t):
+                """t is the validator's result, or the collection of its results over the formulae (`map(validate).collect::<Result<..>>()`:
+                the first error is the error of the collection)."""
+                if t == pv[0].term:
+                    return True
+                n_ = nz_(t)
+                return n_ == vt or (n_[0] == "collect" and len(n_) == 3 and n_[2] == vt)
+            tried = any(r[5] == "try" and carries(r[0]) for r in sm.returns) or any(x.kind == "try" and carries(x.args[0]) for x in sm.all_sites())
             if not tried:
                 good, why = False, "the validator's error is not propagated"
         rep.check(good, "C14-R2", f"{ep.name}/trees-from-validator", f"{ep.file}:{ep.line}", "evaluates only validated trees on the validated graph, errors propagated", why)
